@@ -15,7 +15,7 @@ import vlib, svgen, tree, pp, c15
 KT = {"sp": " ", "ht": "\t", "ff": "\f", "nl": "\n", "crlf": "\r\n", "lcmt": "// c ü\n", "bcmt": "/* c é */", "ecmt": "/**/", "scmt": "/***/",
       "celldefine": "`celldefine ", "endcelldefine": "`endcelldefine ", "default_nettype": "`default_nettype wire ", "timescale": "`timescale 1ns/1ps ",
       "unconnected_drive": "`unconnected_drive pull1 ", "nounconnected_drive": "`nounconnected_drive ", "line": "`line 7 \"f.v\" 0\n",
-      "define": "`define TRIVIA_M 1\n", "undef": "`undef TRIVIA_M ", "resetall": "`resetall "}
+      "define": "`define TRIVIA_M 1\n", "define_cont": "`define TRIVIA_N a \\\n + b\n", "define_crlf": "`define TRIVIA_N a \\\r\n + b\r\n", "undef": "`undef TRIVIA_M ", "resetall": "`resetall "}
 NEUTRAL = [k for k in KT if k != "resetall"]
 
 
